@@ -31,7 +31,7 @@ class MomentsDecorator:
                 :return: the expectation of E[ (S_t/S_0)^k ] where k=moment and Fwd = S_0 exp(mu*t), mu=r-d
                 """
                 return self.log_characteristic_function(
-                    t=t, x=-1j * moment, log_spot=0
+                    t=t, x=-1j * np.asarray(moment), log_spot=0
                 ).real
 
             def mean(self, t: float) -> float:
